@@ -38,6 +38,17 @@ CHECKS.update({
             "DESIGN.md section 3 C19"),
 })
 
+CHECKS.update({
+    "C01": ("Translation validation of the schema rewrite by z3's regex/sequence theory: for every member of a generated family of "
+            "{pattern, minLength, maxLength} schemas the real update_pattern_in_schema is run and z3 decides, for ALL strings, whether a string "
+            "fully matching the rewritten pattern can violate the declared schema and whether a satisfiable schema was emptied; plus CrossHair "
+            "runs of _distribute_length_constraints/_build_size (symbolic bounds), to_json_schema (readOnly/nullable), the per-location filters, "
+            "the keyword whitelists of parameter conversion and the strategy caches (symbolic request sequences). Draws themselves are "
+            "hypothesis-jsonschema's contract (trusted). Known findings: search-semantics junk, repeated unquantified atom, group length.",
+            "z3 regular-language inclusion queries over all strings per rewritten schema (sre->z3 translation validated against re.search each run) + CrossHair symbolic execution of the conversion kernels",
+            "DESIGN.md section 3 C01"),
+})
+
 NOT_APPLICABLE = {
     "C13": "Seed reproducibility is a 2-run hyper-property of the whole program through Hypothesis' engine, its PRNG, identity-keyed caches and "
            "set iteration order; none of it can be made a symbolic variable of a bounded encoding, and the only solver-shaped fragment "
